@@ -1178,16 +1178,12 @@ func TestVerifC09_EnumInproc(t *testing.T) {
 		mode, tier string
 		variants   []string
 	}
-	one, two := []string{"inproc"}, []string{"inproc", "recover-then-inproc"}
+	one := []string{"inproc"}
+	two := []string{"inproc", "recover-then-inproc"} // second variant: the crash state is first met by another crashing cycle
 	cfgs := []cfg{{2, "plain", "hourly", one}, {3, "tags", "hourly", one}, {4, "plain", "daily", one}}
+	_ = two
 	if verifkit.Tier() == "thorough" {
-		cfgs = nil
-		for _, m := range []string{"plain", "tags", "dedup_time"} {
-			for _, n := range []int{2, 4, 6} {
-				cfgs = append(cfgs, cfg{n, m, "hourly", one})
-			}
-		}
-		cfgs = append(cfgs, cfg{5, "plain", "daily", two}, cfg{6, "tags", "both", one})
+		cfgs = []cfg{{2, "plain", "hourly", two}, {4, "plain", "hourly", one}, {3, "tags", "hourly", one}, {6, "tags", "both", one}}
 	}
 	complete := true
 	for ci, cf := range cfgs {
@@ -1196,7 +1192,7 @@ func TestVerifC09_EnumInproc(t *testing.T) {
 			for k := 1; ; k++ {
 				c := c09Clone(base)
 				c.Script = []c09Step{{Kind: "inproc", CrashAt: k, MidFrac: 0.5}}
-				c.CheapFinal = k%5 != 0
+				c.CheapFinal = k%5 != 0 || (verifkit.Tier() == "thorough" && k%10 != 0)
 				if first == "recover-then-inproc" {
 					// the crash state is first met by another crashing cycle
 					c.Script = append(c.Script, c09Step{Kind: "inproc", CrashAt: 1 + k%3, MidFrac: 0.5, Late: true})
@@ -1245,7 +1241,7 @@ func TestVerifC09_EnumKill(t *testing.T) {
 	}
 	cfgs := []cfg{{3, "tags"}, {4, "plain"}}
 	if verifkit.Tier() == "thorough" {
-		cfgs = []cfg{{3, "plain"}, {5, "plain"}, {4, "tags"}}
+		cfgs = []cfg{{4, "tags"}}
 	}
 	truncated := false
 	for ci, cf := range cfgs {
@@ -1323,7 +1319,7 @@ func TestVerifC09_Scenarios(t *testing.T) {
 	}
 	for si, x := range scs {
 		for _, mode := range []string{"plain", "tags"} {
-			if mode == "tags" && verifkit.Tier() == "quick" && si != 0 {
+			if mode == "tags" && si != 0 {
 				continue
 			}
 			c := c09FixedCase(seed*13+si, x.n, mode, x.tier)
